@@ -6,6 +6,7 @@ From Feox Require Import Gen.Constants Model.FreeSpace Proofs.FreeSpaceProofs Pr
 From Feox Require Model.FailPath Proofs.FailPathProofs.
 From Feox Require Model.FailBatches Proofs.FailBatchesProofs.
 From Feox Require Model.Codec Model.Recovery Proofs.ScanAcceptsProofs Proofs.ScanQuiescentProofs.
+From Feox Require Model.MetaJournal Proofs.RetireContainedProofs.
 Import ListNotations.
 Local Open Scope N_scope.
 
@@ -187,3 +188,101 @@ Print Assumptions recovery_rebuilds_the_partition.
 Example partition_unfolds : forall o, OInv o ->
   forall b, FEOX_DATA_START_BLOCK <= b < dev_sectors (ofs o) -> (free (ofs o) b <-> ~ owned_blk o b).
 Proof. intros o [_ H _ _]. exact H. Qed.
+
+(* ---- what a retirement can write (Model/Recovery.v retire_extents: the run-time retirement of a
+   flush and the retirements of recovery; replay: the journal replay of an open).  Whatever the
+   extents, the journal position and the chunking into journal transactions: the length of the file
+   stays and a block that lies neither in the journal area nor inside one of the NAMED extents keeps
+   every byte -- a retirement never writes into blocks it does not own ---- *)
+
+Theorem retirement_writes_only_the_journal_and_the_named_extents :
+  forall img p exts,
+  (N.to_nat FEOX_METADATA_BACKUP_BLOCK <= length img)%nat ->
+  RetireContainedProofs.same_outside exts img (fst (fst (Recovery.retire_extents img p exts))).
+Proof. exact RetireContainedProofs.retirement_is_contained. Qed.
+Check retirement_writes_only_the_journal_and_the_named_extents :
+  forall img p exts,
+  (N.to_nat FEOX_METADATA_BACKUP_BLOCK <= length img)%nat ->
+  RetireContainedProofs.same_outside exts img (fst (fst (Recovery.retire_extents img p exts))).
+Print Assumptions retirement_writes_only_the_journal_and_the_named_extents.
+
+Theorem replay_writes_only_the_journal_and_the_named_extents :
+  forall img p exts,
+  (N.to_nat FEOX_METADATA_BACKUP_BLOCK <= length img)%nat ->
+  match Recovery.replay img p exts with
+  | Recovery.ReplayOk img' _ | Recovery.ReplayExhausted img' => RetireContainedProofs.same_outside exts img img'
+  | Recovery.ReplayCoalesce => True
+  end
+
+(* hence every extent that is not named -- every other record -- survives byte for byte ... *).
+Proof. exact RetireContainedProofs.replay_is_contained. Qed.
+Check replay_writes_only_the_journal_and_the_named_extents :
+  forall img p exts,
+  (N.to_nat FEOX_METADATA_BACKUP_BLOCK <= length img)%nat ->
+  match Recovery.replay img p exts with
+  | Recovery.ReplayOk img' _ | Recovery.ReplayExhausted img' => RetireContainedProofs.same_outside exts img img'
+  | Recovery.ReplayCoalesce => True
+  end
+
+(* hence every extent that is not named -- every other record -- survives byte for byte ... *).
+Print Assumptions replay_writes_only_the_journal_and_the_named_extents.
+
+Theorem retirement_keeps_every_other_extent :
+  forall img p exts a n,
+  (N.to_nat FEOX_METADATA_BACKUP_BLOCK <= length img)%nat ->
+  FEOX_METADATA_BACKUP_BLOCK <= a ->
+  (forall b, a <= b < a + n -> ~ RetireContainedProofs.in_exts exts b) ->
+  let img' := fst (fst (Recovery.retire_extents img p exts)) in
+  length img' = length img /\
+  firstn (N.to_nat n) (skipn (N.to_nat a) img') = firstn (N.to_nat n) (skipn (N.to_nat a) img)
+
+(* ... and so do both metadata copies, for extents in the data area (what the journal codec accepts
+   and the scan produces) *).
+Proof. exact RetireContainedProofs.retirement_keeps_every_other_extent. Qed.
+Check retirement_keeps_every_other_extent :
+  forall img p exts a n,
+  (N.to_nat FEOX_METADATA_BACKUP_BLOCK <= length img)%nat ->
+  FEOX_METADATA_BACKUP_BLOCK <= a ->
+  (forall b, a <= b < a + n -> ~ RetireContainedProofs.in_exts exts b) ->
+  let img' := fst (fst (Recovery.retire_extents img p exts)) in
+  length img' = length img /\
+  firstn (N.to_nat n) (skipn (N.to_nat a) img') = firstn (N.to_nat n) (skipn (N.to_nat a) img)
+
+(* ... and so do both metadata copies, for extents in the data area (what the journal codec accepts
+   and the scan produces) *).
+Print Assumptions retirement_keeps_every_other_extent.
+
+Theorem retirement_keeps_the_metadata :
+  forall img p exts,
+  (N.to_nat FEOX_METADATA_BACKUP_BLOCK <= length img)%nat ->
+  Forall (fun e => FEOX_DATA_START_BLOCK <= fst e) exts ->
+  let img' := fst (fst (Recovery.retire_extents img p exts)) in
+  nth (N.to_nat FEOX_METADATA_BLOCK) img' [] = nth (N.to_nat FEOX_METADATA_BLOCK) img [] /\
+  nth (N.to_nat FEOX_METADATA_BACKUP_BLOCK) img' [] = nth (N.to_nat FEOX_METADATA_BACKUP_BLOCK) img [].
+Proof. exact RetireContainedProofs.retirement_keeps_the_metadata. Qed.
+Check retirement_keeps_the_metadata :
+  forall img p exts,
+  (N.to_nat FEOX_METADATA_BACKUP_BLOCK <= length img)%nat ->
+  Forall (fun e => FEOX_DATA_START_BLOCK <= fst e) exts ->
+  let img' := fst (fst (Recovery.retire_extents img p exts)) in
+  nth (N.to_nat FEOX_METADATA_BLOCK) img' [] = nth (N.to_nat FEOX_METADATA_BLOCK) img [] /\
+  nth (N.to_nat FEOX_METADATA_BACKUP_BLOCK) img' [] = nth (N.to_nat FEOX_METADATA_BACKUP_BLOCK) img [].
+Print Assumptions retirement_keeps_the_metadata.
+(* non-vacuity: the definition unfolds to the claim, and a concrete retirement (block 17 of a
+   20-block file) succeeds, leaves a marker in block 17 and journal records in both slots, and
+   changes nothing else *)
+Example same_outside_unfolds : forall exts img img', RetireContainedProofs.same_outside exts img img' ->
+  length img' = length img /\
+  forall k, (k <= N.to_nat FEOX_METADATA_BLOCK \/ N.to_nat FEOX_METADATA_BACKUP_BLOCK <= k)%nat ->
+            ~ (exists s n, In (s, n) exts /\ s <= N.of_nat k < s + n) -> nth k img' [] = nth k img [].
+Proof. intros exts img img' H. exact H. Qed.
+
+Example a_retirement :
+  let img := repeat (repeat 7 (N.to_nat FEOX_BLOCK_SIZE)) 20 in
+  match Recovery.retire_extents img (Recovery.mkjpos 4 1) [(17, 1)] with
+  | (img', p', ok) =>
+      ok = true /\ Recovery.j_gen p' = 6 /\
+      map (fun k => Bytes.list_eqb (nth k img' []) (nth k img [])) (seq 0 20)
+        = [true; false; true; true; false; true; true; true; true; true; true; true; true; true; true; true; true; false; true; true]
+  end.
+Proof. vm_compute. repeat split; reflexivity. Qed.
